@@ -3,6 +3,7 @@ package c11
 import (
 	"bytes"
 	"fmt"
+	"sort"
 	"strings"
 	"testing"
 
@@ -93,25 +94,23 @@ func TestVerifRace_Model(t *testing.T) { run(t, "model-race", false, vkit.N(300,
 // A transaction hands out a new internal id with every iterator, clone and commit; nodes carry the id of the transaction that may
 // still edit them in place. After 2^32 ids on one lineage the counter must not meet ids that nodes of older versions still carry.
 func TestVerif_TxnIDWrap(t *testing.T) {
-	r := vkit.Start(t, "C11", "txnid-wrap", "exploration", "one probe: a version is retained, a transaction on it takes 2^32+2 iterators (each uses up one internal transaction id) and then writes; the retained version, its clone and an iterator taken at the start must be unchanged and the new version must hold exactly the model")
+	r := vkit.Start(t, "C11", "txnid-wrap", "exploration", "one probe: a version, a clone and an iterator are retained; the transaction then takes 2^32 iterators (each uses up one internal transaction id) and, at each of the 32 ids "+
+		"around the point where the counter has gone once around, writes below an inner node it has not touched since (one still shared with the retained version, one with the clone); the retained values must be unchanged")
 	r.Require("ids_burnt")
-	tree := part.New[uint64]()
-	txn := tree.Txn()
-	txn.Insert([]byte("a"), 1)
-	txn.Insert([]byte("b"), 2)
-	v1 := txn.Commit()
-	w := v1.Txn()
-	w.Insert([]byte("b"), 20) // nodes owned by this transaction
-	clone := w.Clone()
-	it := w.Iterator()
-	const n = 1<<32 + 2
-	for i := 0; i < n; i++ {
-		w.Iterator()
+	const rounds = 32
+	key := func(fam byte, r int, leaf byte) []byte { return []byte{fam, byte('A' + r), leaf} }
+	model := map[string]uint64{}
+	tree0 := part.New[uint64]()
+	txn := tree0.Txn()
+	for q := 0; q < rounds; q++ {
+		for _, fam := range []byte{'s', 'u'} {
+			for _, leaf := range []byte{'a', 'b'} {
+				txn.Insert(key(fam, q, leaf), 1)
+				model[string(key(fam, q, leaf))] = 1
+			}
+		}
 	}
-	r.Count("ids_burnt", n)
-	w.Insert([]byte("a"), 100)
-	w.Insert([]byte("c"), 3)
-	v2 := w.Commit()
+	v1 := txn.Commit()
 	dump := func(it part.Iterator[uint64]) string {
 		var b strings.Builder
 		for k, v, ok := it.Next(); ok; k, v, ok = it.Next() {
@@ -119,18 +118,53 @@ func TestVerif_TxnIDWrap(t *testing.T) {
 		}
 		return b.String()
 	}
-	for _, c := range []struct{ name, got, want string }{
-		{"the retained version", dump(v1.Iterator()), "a=1 b=2 "},
-		{"the clone taken before the ids were used up", dump(clone.Iterator()), "a=1 b=20 "},
-		{"the iterator taken before the ids were used up", dump(it), "a=1 b=20 "},
-		{"the new version", dump(v2.Iterator()), "a=100 b=20 c=3 "},
-	} {
-		if c.got != c.want {
-			r.Violation("persistence/txnid-wrap", 0, map[string]any{"message": fmt.Sprintf("%s holds [%s], want [%s] (after 2^32+2 transaction ids on one lineage)", c.name, c.got, c.want)})
+	want := func(m map[string]uint64) string {
+		ks := make([]string, 0, len(m))
+		for k := range m {
+			ks = append(ks, k)
 		}
+		sort.Strings(ks)
+		var b strings.Builder
+		for _, k := range ks {
+			fmt.Fprintf(&b, "%s=%d ", k, m[k])
+		}
+		return b.String()
 	}
-	if v1.Len() != 2 || v2.Len() != 3 {
-		r.Violation("persistence/txnid-wrap", 0, map[string]any{"message": fmt.Sprintf("Len: retained %d (want 2), new %d (want 3)", v1.Len(), v2.Len())})
+	wantV1 := want(model)
+	w := v1.Txn()
+	for q := 0; q < rounds; q++ { // the 's' subtrees now belong to this transaction; the 'u' subtrees are still the retained version's
+		w.Insert(key('s', q, 'a'), 2)
+		model[string(key('s', q, 'a'))] = 2
+	}
+	wantClone := want(model)
+	clone := w.Clone()
+	it := w.Iterator()
+	const n = 1<<32 - 12
+	for i := 0; i < n; i++ {
+		w.Iterator()
+	}
+	burnt := int64(n)
+	for q := 0; q < rounds; q++ {
+		for _, fam := range []byte{'s', 'u'} {
+			w.Insert(key(fam, q, 'b'), uint64(100+q))
+			model[string(key(fam, q, 'b'))] = uint64(100 + q)
+		}
+		for _, c := range []struct{ name, got, want string }{
+			{"the retained version", dump(v1.Iterator()), wantV1},
+			{"the clone taken before the ids were used up", dump(clone.Iterator()), wantClone},
+			{"the iterator taken before the ids were used up", dump(it), wantClone},
+		} {
+			if c.got != c.want {
+				r.Violation("persistence/txnid-wrap", q, map[string]any{"message": fmt.Sprintf("%s changed after %d transaction ids on one lineage: holds [%s], want [%s]", c.name, burnt, c.got, c.want)})
+			}
+		}
+		w.Iterator()
+		burnt++
+	}
+	r.Count("ids_burnt", burnt)
+	v2 := w.Commit()
+	if got := dump(v2.Iterator()); got != want(model) || v2.Len() != len(model) || v1.Len() != 4*rounds {
+		r.Violation("persistence/txnid-wrap", 99, map[string]any{"message": fmt.Sprintf("the new version holds [%s] (Len %d), want [%s]", got, v2.Len(), want(model))})
 	}
 	r.Case(1, true)
 	r.Finish()
